@@ -29,8 +29,8 @@ def handle (op : String) (j : Json) : R Json := do
   | "C03.item" =>
     let rows ← getNat j "rows"; let cols ← getNat j "cols"
     match ← C01.runGen j with
-    | none => pure (obj [("ok", false)])
-    | some g =>
+    | .error reason => pure (obj [("ok", false), ("reason", Json.str reason)])
+    | .ok g =>
       let opts ← getOpts (← fld j "opts")
       match g.component rows cols with
       | none => pure (obj ([("ok", Json.bool true), ("component", Json.null)] ++ [("gen", g.toJson)]))
